@@ -132,6 +132,7 @@ type VC struct {
 	evalPos     token.Pos // source position at which contract names are resolved (type-switch variables)
 	escapedLib  []*LV     // locations whose address was passed to a library function
 	libCells    map[string]string // cell arrays holding variables whose address a library function has seen
+	runeConvs   [][2]Term         // (string, []rune(string)) pairs, for the counterexample generator
 }
 
 type hdrInfo struct {
